@@ -34,6 +34,7 @@ def latest_wins(rep, prog, oks):
     rid = rep.rule("R1", "callsign / heading / speed / vertical rate are overwritten by exactly the frames that carry them, with the frame's own values; other frames leave them untouched")
     reps = tracker.representative_paths(oks)
     n = 0
+    n_calc = 0
     for label, p in sorted(reps.items()):
         if p.ids[0] not in (17, 18):
             continue
@@ -73,6 +74,11 @@ def latest_wins(rep, prog, oks):
                 else:
                     if not (untouched(hd, "heading") and untouched(sp, "speed") and untouched(vs, "vert_speed")):
                         bad = "velocity fields partially written: heading %r speed %r vert_speed %r" % (hd, sp, vs)
+                    # the record may keep its old velocity only when this report carries none (calculate() returned None)
+                    calc = [e["value"] for e in o.events if e["kind"] == "fn_return" and e["fn"].endswith("AirborneVelocity::calculate")]
+                    n_calc += len(calc)
+                    if any(is_some(v) for v in calc):
+                        bad = "the report carries a velocity (calculate() returned Some) but heading/speed/vert_speed keep their previous values on some path: the latest report does not win"
             elif not (untouched(hd, "heading") and untouched(sp, "speed") and untouched(vs, "vert_speed")):
                 bad = "a %s frame changes heading/speed/vert_speed: %r %r %r" % (kind, hd, sp, vs)
         n += 1
@@ -80,6 +86,7 @@ def latest_wins(rep, prog, oks):
         if bad:
             rep.violation("R1", "%s:%s" % (label.split("/")[0], kind), "%s: %s" % (label, bad))
     rep.floor("frame kinds", 30, n)
+    rep.floor("velocity paths on which calculate() returned nothing (traced returns)", 2, n_calc)
 
 
 def pairing_rule(rep, prog, oks):
